@@ -185,7 +185,7 @@ def fingerprint(obj) -> list:
     import droplets as dr
 
     def drops(ds):
-        return [[type(d).__name__, str(d.data.dtype), d.data.tobytes().hex()] for d in ds]
+        return [[type(d).__name__, repr(d.data.dtype.descr), d.data.tobytes().hex()] for d in ds]
 
     def tkey(t):
         f = float(t)
